@@ -98,6 +98,13 @@ theorem internal_step_decreases (s s' : Cl) (l : Label) (hl : internal l = true)
       have := length_erase_of_mem' s.locked a hc.1
       simp only [mu, answer]; omega
     · simp [hc] at hs
+  | sendAbort a =>
+    simp only [step] at hs
+    by_cases hc : a ∈ s.locked ∧ a ∈ s.abortable
+    · rw [if_pos hc] at hs; injection hs with hs; subst hs
+      have := length_erase_of_mem' s.locked a hc.1
+      simp only [mu, answer]; omega
+    · simp [hc] at hs
   | wTake =>
     simp only [step] at hs
     cases hw : s.writer <;> simp only [hw] at hs <;> first | (cases hs; done) | skip
@@ -396,6 +403,12 @@ one answer only because `Nat` subtraction saturates — the code's counter would
 the request has already been answered; the exactly-once property of the children is what rules
 this out -/
 example : (childrenDone { wait := 2 } 2).rawAnswered = 1 := by decide
+
+/-- (since 9cd2b0b) a request resent by another connection's read loop carries that connection's quit as `abort`: its Send may give up
+while it waits for room — it is then answered with an error, exactly once, like a Send that sees this connection's own quit.  All the
+theorems above quantify over `sendAbort` as over every other label. -/
+example : ∃ s, run { cap := 0, abortable := [7] } [.sendBegin 7, .sendAbort 7] = some s ∧ s.answered = [(7, .error)] ∧ s.locked = [] :=
+  ⟨_, rfl, rfl, rfl⟩
 
 /-! ## tie to the code -/
 
